@@ -50,7 +50,15 @@ def check(ctx):
         if cn == "MonoTimer":
             # every public method that reads the compensated state (.start/.stop/.latest) looks at the clock first
             for mname in ("restart", "repeat", "extend"):
-                mm = C.own_method(mname)
+                look = C.lookup(mname)
+                if look is None:
+                    raise AnchorError("MonoTimer.%s not found" % mname)
+                mm = look[1]
+                if look[0] is not C:
+                    ctx.bad("T7-clock", C.node, "MonoTimer takes %s from %s" % (mname, look[0].name),
+                            "the inherited method reads .start/.stop without looking at the clock first: after a backward clock "
+                            "jump it passes the uncompensated values to restart(), which overwrites the compensation update() makes")
+                    continue
                 W = FuncView(ctx, mm)
                 up = W.call_nodes("self.update")
                 reads = [n for n in W.cfg.nodes if any(isinstance(x, ast.Attribute) and isinstance(x.ctx, ast.Load) and
